@@ -238,7 +238,12 @@ def witness : Node Nat :=
             [("pos", .tuple [("pos_0", .prior 3), ("pos_1", .prior 7)]),
              ("r", .arith .mul [("left_", .prior 7), ("right_", .prior 3)] (.prior 7) (.prior 3))])]
 
-def natOps : Ops Nat := { bin := fun _ a b => a * b, un := fun _ a => a, nameLe := fun a b => decide (a ≤ b) }
+def natOps : Ops Nat where
+  bin := fun _ a b => a * b
+  un := fun _ a => a
+  nameLe := fun a b => decide (a ≤ b)
+  lt := fun a b => decide (a < b)
+  le := fun a b => decide (a ≤ b)
 
 example : uniqueIds witness = [3, 7] ∧ count witness = 2 := by decide
 example : paths witness = [["h", "pos", "pos_0"], ["h", "r", "right_"], ["g", "a"], ["h", "pos", "pos_1"], ["h", "r", "left_"]] := by decide
